@@ -146,20 +146,14 @@ Print Assumptions C10_dpkg_valid_no_space.
    If the code changes so that a tie no longer holds, this file no longer checks. *)
 Require Verif.Tie.Debian.
 Require Verif.Tie.Loops.Debian.
-Definition C10_tie_debian_compare := Verif.Tie.Debian.tie_debian_compare.
-Print Assumptions C10_tie_debian_compare.
-Definition C10_tie_loops_debian_compareDebianDigits := Verif.Tie.Loops.Debian.tie_loops_debian_compareDebianDigits.
-Print Assumptions C10_tie_loops_debian_compareDebianDigits.
-Definition C10_tie_loops_debian_getDebianCharWeight := Verif.Tie.Loops.Debian.tie_loops_debian_getDebianCharWeight.
-Print Assumptions C10_tie_loops_debian_getDebianCharWeight.
-Definition C10_tie_loops_debian_compareDebianNonDigits := Verif.Tie.Loops.Debian.tie_loops_debian_compareDebianNonDigits.
-Print Assumptions C10_tie_loops_debian_compareDebianNonDigits.
-Definition C10_tie_loops_debian_compareDebianNonDigits_sum := Verif.Tie.Loops.Debian.tie_loops_debian_compareDebianNonDigits_sum.
-Print Assumptions C10_tie_loops_debian_compareDebianNonDigits_sum.
-Definition C10_tie_loops_debian_compareDebianVersionString := Verif.Tie.Loops.Debian.tie_loops_debian_compareDebianVersionString.
-Print Assumptions C10_tie_loops_debian_compareDebianVersionString.
-Definition C10_tie_compareDebianVersionString_total_model := Verif.Tie.Loops.Debian.compareDebianVersionString_total_model.
-Print Assumptions C10_tie_compareDebianVersionString_total_model.
-Definition C10_tie_debian_compare_closed := Verif.Tie.Loops.Debian.tie_debian_compare_closed.
-Print Assumptions C10_tie_debian_compare_closed.
+Definition C10_tie_debian_compare := @Verif.Tie.Debian.tie_debian_compare.
+Definition C10_tie_loops_debian_compareDebianDigits := @Verif.Tie.Loops.Debian.tie_loops_debian_compareDebianDigits.
+Definition C10_tie_loops_debian_getDebianCharWeight := @Verif.Tie.Loops.Debian.tie_loops_debian_getDebianCharWeight.
+Definition C10_tie_loops_debian_compareDebianNonDigits := @Verif.Tie.Loops.Debian.tie_loops_debian_compareDebianNonDigits.
+Definition C10_tie_loops_debian_compareDebianNonDigits_sum := @Verif.Tie.Loops.Debian.tie_loops_debian_compareDebianNonDigits_sum.
+Definition C10_tie_loops_debian_compareDebianVersionString := @Verif.Tie.Loops.Debian.tie_loops_debian_compareDebianVersionString.
+Definition C10_tie_compareDebianVersionString_total_model := @Verif.Tie.Loops.Debian.compareDebianVersionString_total_model.
+Definition C10_tie_debian_compare_closed := @Verif.Tie.Loops.Debian.tie_debian_compare_closed.
+Definition C10_ties_all := (C10_tie_compareDebianVersionString_total_model, (C10_tie_debian_compare, (C10_tie_debian_compare_closed, (C10_tie_loops_debian_compareDebianDigits, (C10_tie_loops_debian_compareDebianNonDigits, (C10_tie_loops_debian_compareDebianNonDigits_sum, (C10_tie_loops_debian_compareDebianVersionString, C10_tie_loops_debian_getDebianCharWeight))))))).
+Print Assumptions C10_ties_all.
 (* ====== ties to the source: END ====== *)
